@@ -1068,6 +1068,44 @@ namespace gen
     };
 
     // setup() throws by contract when the total extent is 0: counted as a clean rejection
+    // Late growth: a real-vector component that is already part of a compound space gets one more dimension (legal as long as it
+    // happens before setup() and before any state is allocated: top-down assembly of a space). Everything a compound derives from its
+    // components - serialization layout, value locations, dimension, extent - must follow. Applied when the number of leaves of the
+    // generated space is 2 modulo 3: decided by the decoded structure, no choice byte is consumed.
+    inline int countLeaves(const Desc &d)
+    {
+        if (d.subs.empty())
+            return 1;
+        int n = 0;
+        for (auto &x : d.subs)
+            n += countLeaves(x);
+        return n;
+    }
+    inline bool growFirstNestedRV(Desc &d, int depth)
+    {
+        if (d.kind == RV && depth > 0)
+        {
+            d.space->as<ob::RealVectorStateSpace>()->addDimension(d.lo.back(), d.hi.back());
+            d.lo.push_back(d.lo.back());
+            d.hi.push_back(d.hi.back());
+            return true;
+        }
+        if (d.kind == COMPOUND)  // only user-assembled compounds: SE2 / SE3 and friends fix the dimension of their parts
+            for (auto &x : d.subs)
+                if (growFirstNestedRV(x, depth + 1))
+                    return true;
+        return false;
+    }
+    inline bool lateGrowth(Desc &d, vf::Ctx &c)
+    {
+        if (d.kind != COMPOUND || countLeaves(d) % 3 != 2)
+            return false;
+        bool done = growFirstNestedRV(d, 0);
+        if (done)
+            c.count("space:component-grown-after-composition");
+        return done;
+    }
+
     inline void setupOrSkip(Desc &d, vf::Ctx &c)
     {
         try
